@@ -9,6 +9,7 @@
 #include <functional>
 #include <map>
 #include <set>
+#include <sstream>
 #include <string>
 #include <vector>
 
@@ -190,7 +191,7 @@ static long double smooth_exact(const FPar & p, long double lo, long double hi)
 
 static void gauss_group(Group & g, verif::Rng & rng, int ncases)
 {
-  const double tols[] = {1e-2, 1e-3, 1e-4, 1e-5, 1e-6, 1e-7, 1e-8};
+  const double tols[] = {1e-2, 1e-3, 1e-4, 1e-5, 1e-6, 1e-7, 1e-8, 1e-10, 1e-12};
   for (int c = 0; c < ncases; c++) {
     FPar p;
     p.kind = c % 8;
@@ -207,7 +208,19 @@ static void gauss_group(Group & g, verif::Rng & rng, int ncases)
     p.scale = scales[(c / 8) % 6];
     long double ex = (long double)p.scale * smooth_exact(p, lo, hi);
     for (double tol : tols) {
-      double r = decay0_gauss(smooth, lo, hi, tol, &p);
+      // the wrapper says on the error stream when the integrator gave up ("[error] ... GSL QNG integration error"): a value
+      // returned WITHOUT that message is a value it vouches for
+      std::ostringstream said;
+      std::streambuf * old_cerr = std::cerr.rdbuf(said.rdbuf());
+      double r;
+      try {
+        r = decay0_gauss(smooth, lo, hi, tol, &p);
+      } catch (...) {
+        std::cerr.rdbuf(old_cerr);
+        throw;
+      }
+      std::cerr.rdbuf(old_cerr);
+      const bool reported_failure = said.str().find("[error]") != std::string::npos;
       // did the first attempt (same routine, same arguments) miss its tolerance?
       gsl_function F;
       F.function = smooth;
@@ -226,7 +239,15 @@ static void gauss_group(Group & g, verif::Rng & rng, int ncases)
       double err = (double)(std::fabs((long double)r - ex) / std::fabs(ex));
       g.n++;
       g.distinct.insert(fmt("k%d/tol%g/st%d/%d/x%g", p.kind, tol, st, st2, p.scale));
-      if (st != 0 && st2 != 0) continue; // QNG gave up twice: the wrapper promises nothing (it prints an error)
+      if (st != 0 && st2 != 0) {
+        // QNG gave up twice: the wrapper promises nothing - provided it says so; a silent value must still be within the relaxed tolerance
+        g.distinct.insert(fmt("gave-up/k%d/%s", p.kind, reported_failure ? "reported" : "silent"));
+        if (!reported_failure && !(err <= 10 * tol + 4e-16))
+          g.fail(fmt("gauss|kind%d|silent-failure", p.kind),
+                 fmt("kind %d a=%.6g b=%.6g on [%.6g,%.6g] tol %g: the integrator misses the tolerance twice (statuses %d, %d), the wrapper reports nothing and returns %.17g (exact %.17Lg, "
+                     "relative error %.3g)", p.kind, p.a, p.b, lo, hi, tol, st, st2, r, ex, err));
+        continue;
+      }
       if (err / allowed > g.maxerr) g.maxerr = err / allowed;
       if (!(err <= allowed + 4e-16)) {
         g.fail(fmt("gauss|kind%d|tolerance", p.kind),
